@@ -48,6 +48,7 @@ static void cell_to_cfg(const cell *c, ns_cfg *n)
 	n->lazy = c->lazy; n->fragsize = c->fs; n->maxlen = c->ml; n->raw = c->raw;
 	n->lat_up = LAT[c->lat][0]; n->lat_down = LAT[c->lat][1];
 	n->nclients = c->two ? 2 : 1;
+	n->succession = c->two == 2;
 	n->warm = c->warm;
 	ns_relay *r = &n->relay;
 	switch (c->up) {
@@ -139,6 +140,12 @@ static void cells_two(void)
 		if ((c.qt == 5) && c.fs > 50) c.fs = 50;
 		add_cell(c);
 	}
+	/* succession: client A is cut off in mid-transfer, 65 s later client B logs in and inherits A's slot and tunnel address */
+	for (unsigned q = 0; q < sizeof QTS / sizeof QTS[0]; q++) for (int lazy = 1; lazy >= 0; lazy--) for (int f = 0; f < 2; f++) {
+		cell c = { QTS[q], 0, 0, f ? 200 : 0, 255, lazy, 0, 0, 0, 7, 2 };
+		if ((c.qt == 5) && c.fs > 50) c.fs = 50;
+		add_cell(c);
+	}
 }
 
 /* ---------------------------------------------------------------- C11: relay family */
@@ -198,7 +205,10 @@ static const wpk WL3[] = { { 1, 40, 100, 0, A_SRV }, { 1, 300, 101, 0, A_SRV }, 
 static const wpk WL5[] = { { 1, 1100, 100, 0, A_SRV }, { 0, 1100, 100, 0, A_CLA }, { 1, 60, 4000, 0, A_SRV }, { 0, 60, 4100, 0, A_CLA }, { 1, 1100, 7000, 0, A_SRV }, { 0, 1100, 7001, 0, A_CLA } };
 /* C16: multi-fragment packets both ways so that a double append or a double ack would land in mid-packet */
 static const wpk WL6[] = { { 1, 700, 100, 0, A_SRV }, { 0, 700, 150, 0, A_CLA }, { 1, 300, 1200, 0, A_SRV }, { 0, 300, 1250, 0, A_CLA }, { 1, 200, 5000, 0, A_SRV }, { 0, 200, 5050, 0, A_CLA } };
-static const struct { const wpk *p; int n; } WLS[7] = { { WL0, 14 }, { WL1, 12 }, { WL2, 12 }, { WL3, 8 }, { WL0, 0 }, { WL5, 6 }, { WL6, 6 } };
+/* second session in a re-used slot (succession cells): client B has A's old tunnel address */
+static const wpk WL7[] = { { 2, 60, 100, 0, A_SRV }, { 0, 1100, 150, 0, A_CLA }, { 2, 1100, 160, 0, A_SRV }, { 0, 200, 170, 1, A_CLA }, { 2, 300, 1500, 0, A_SRV }, { 0, 300, 1600, 0, A_CLA },
+	{ 2, 64, 2500, 1, A_SRV }, { 0, 64, 2600, 1, A_CLA } };
+static const struct { const wpk *p; int n; } WLS[8] = { { WL0, 14 }, { WL1, 12 }, { WL2, 12 }, { WL3, 8 }, { WL0, 0 }, { WL5, 6 }, { WL6, 6 }, { WL7, 8 } };
 
 static int up_chunk_cap, down_frag_cap;
 static int WL_MUST[NS_MAXPK];   /* bytes per upstream query / downstream fragment in this cell */
